@@ -496,6 +496,20 @@ def check_db(chk, db, tab, terms, jobs):
                         ok = ok and (p1 - 1 + len(r) - 1, p1 - 1 + len(r)) == (key[0], key[0] + 1)
                 exp_key = (key[0] + 1, key[1]) if lv[0] == "ins" else key
                 ok_key = exp_key in eqk
+                if real:
+                    # every spelling the table of equivalent indels maps to this variant (sam.py:480-491; used for long reads and with
+                    # indelpost off) has to denote the catalogued haplotype: an insertion shifted along a repeat is a ROTATED string
+                    for ek in eqk:
+                        k2 = (ek[0] - 1, ek[1]) if ek[1].startswith("ins") else ek
+                        lo_, hi_ = min(key[0], k2[0]) - 12, max(key[0], k2[0]) + 40
+                        win = g[lo_:hi_]
+                        if "N" in win:
+                            continue
+                        chk.count(st + ":indel-anchoring", "equivalent-spellings-compared")
+                        if apply_py(parse_op_py(k2[1]), k2[0], lo_, win) != apply_py(parse_op_py(key[1]), key[0], lo_, win):
+                            chk.fail("insertion-gap", dict(d, loaded=list(key), what="equivalent spelling"), case_data,
+                                     "every registered equivalent spelling denotes the catalogued haplotype",
+                                     {"catalogued": list(key), "registered equivalent": list(ek)})
                 hits = cigar_read_hits(smp, g, key, cwin, G)
                 if (not ok_key or hits != 1) and ok:
                     # the database lists the SAME haplotype twice: another catalogued indel is a shifted spelling of this one (e.g. delC at
